@@ -133,6 +133,12 @@ impl InputList {
         let mut index = 0;
         loop {
             let ev = reader.read_event_into(&mut buf);
+            if let Ok(ok_ev) = &ev {
+                // everything downstream assumes UTF-8 content
+                std::str::from_utf8(ok_ev).map_err(|e| {
+                    SvgdxError::ParseError(format!("XML error near line {src_line}: {e}"))
+                })?;
+            }
             let event_lines = if let Ok(ok_ev) = ev.clone() {
                 ok_ev.as_ref().iter().filter(|&c| *c == b'\n').count()
             } else {
